@@ -22,7 +22,11 @@ func worldWorkConn(w *World) {
 	maxPool := w.KnobPick("max_pool", 1, 2, 5, 5, 8)
 	pool := w.KnobPick("pool", 0, 0, 1, 3, 5, 9)
 	uct := w.KnobPick("user_conn_timeout", 2, 3, 5)
-	path := w.Knob("accept_path", 0, 3) // 0 direct tcp, 1 tcp group, 2 tcpmux vhost, 3 stcp visitor
+	path := w.Knob("accept_path", 0, 4) // 0 direct tcp, 1 tcp group, 2 tcpmux vhost, 3 stcp visitor, 4 tcpmux group
+	pathName := path
+	if path == 4 {
+		path = 2 // users of a tcpmux group connect exactly like users of a single tcpmux proxy
+	}
 	scfg := map[string]any{
 		"bindAddr": "10.0.0.1", "bindPort": 7000, "tcpmuxHTTPConnectPort": 7005,
 		"auth":            map[string]any{"token": token},
@@ -68,6 +72,9 @@ func worldWorkConn(w *World) {
 		addr = "10.0.0.1:20002"
 	case 2:
 		f = M{"proxy_name": pname, "proxy_type": "tcpmux", "multiplexer": "httpconnect", "custom_domains": []string{"wc.example.test"}}
+		if pathName == 4 {
+			f["group"], f["group_key"] = "mg", "k"
+		}
 		addr = "10.0.0.1:7005"
 	default:
 		f = M{"proxy_name": pname, "proxy_type": "stcp", "sk": "sk1", "allow_users": []string{"*"}}
@@ -354,7 +361,7 @@ func worldWorkConn(w *World) {
 				lim = time.Duration(uct*(want+2))*time.Second + slack
 			}
 			if el := u.closedAt - u.start; el > lim {
-				viol("bridge", "user-left-without-peer-at-session-end", "a user that connected %v before/after the session ended (accept path %d) was left open for %v without a peer (userConnTimeout %ds): %v", u.start, path, el, uct, u.err)
+				viol("bridge", "user-left-without-peer-at-session-end", "a user that connected %v before/after the session ended (accept path %d) was left open for %v without a peer (userConnTimeout %ds): %v", u.start, pathName, el, uct, u.err)
 			}
 		}
 	}
@@ -392,6 +399,6 @@ func worldWorkConn(w *World) {
 	if deadHeld > 0 {
 		viol("orphan", "dead-work-conn-never-closed-by-server", "%d work connections the client had closed are still held open by the server 6 s after the session ended", deadHeld)
 	}
-	w.SetSample(map[string]any{"pool": pool, "max_pool": maxPool, "mode": mode, "users": nusers, "path": path, "starts": len(starts)})
+	w.SetSample(map[string]any{"pool": pool, "max_pool": maxPool, "mode": mode, "users": nusers, "path": pathName, "starts": len(starts)})
 	w.Nontrivial()
 }
